@@ -226,6 +226,23 @@ def vacuity_classes(t, cnt):
                        or (x, '/'.join(c['dir'] + [_fmt(site['ffmt'], site['base'], ep)]), '') in seen_from)
             if hit:
                 cnt['link to an entry point named only by a repeated @remote directive' + (', single page' if site['single'] else '')] += 1
+    # custom pages that were written into different directories with an identical JavaScript= value
+    written = {'/'.join(e[1]) for e in t['ev'] if e[0] == 'w'}
+    byval = {}
+    for pid, (path, val) in m.get('page_js', {}).items():
+        norm = '/'.join(c for c in path.split('/') if c not in ('', '.'))
+        if norm in written:
+            byval.setdefault(val, set()).add(norm.rpartition('/')[0])
+            if set(val.split(';')) & set(m.get('global_js', ())):
+                cnt['page: JavaScript value repeats a [Game] JavaScript file'] += 1
+    ndirs = max([len(d) for d in byval.values()] or [0])
+    if ndirs > 1:
+        cnt['site: pages in different directories with the same JavaScript value'] += 1
+        cnt['site: pages in different directories with the same JavaScript value, ' + ('single page' if site['single'] else 'page per entry')] += 1
+        if len({d.count('/') + (d != '') for d in max(byval.values(), key=len)}) > 1:
+            cnt['site: pages at different depths with the same JavaScript value'] += 1
+    if len(byval) > 1:
+        cnt['site: pages with different JavaScript values'] += 1
     if any(n > 1 for n in m.get('ndirectives', ())):
         cnt['site: several @remote directives in one skool file'] += 1
     nd = nondefault_anchor(site)
@@ -275,6 +292,11 @@ REQUIRED = ['link other-code page -> main entry', 'link main page -> other-code 
             'link to an entry point named only by a repeated @remote directive',
             'link to an entry point named only by a repeated @remote directive, single page',
             'site: several @remote directives in one skool file',
+            'site: pages in different directories with the same JavaScript value',
+            'site: pages in different directories with the same JavaScript value, single page',
+            'site: pages in different directories with the same JavaScript value, page per entry',
+            'site: pages at different depths with the same JavaScript value', 'site: pages with different JavaScript values',
+            'page: JavaScript value repeats a [Game] JavaScript file',
             '#R link: explicit numeric anchor, non-default AddressAnchor',
             '#R link: explicit numeric anchor, non-default AddressAnchor, single page',
             '#R link: entry point with the entry address as anchor, non-default AddressAnchor',
@@ -427,7 +449,8 @@ def run(tier):
     rep.rule = ('random abstract sites (2-8 main entries of every type + 0-2 other-code disassemblies, operands/#R (with and without '
                 'explicit anchors: the entry address as decimal/$hex number from first instructions and entry points, local and @remote; '
                 'other instruction anchors as numbers or in AddressAnchor form; #HTML ids; remote entries declared by 1-3 @remote '
-                'directives per entry spread over the skool file with disjoint/overlapping/identical entry-point lists)/#LINK/image/audio macros, [Paths] at different depths, AddressAnchor/CodeFiles formats, LinkOperands, -1 -a -C -D/-H -l/-u -o -O -j -T, '
+                'directives per entry spread over the skool file with disjoint/overlapping/identical entry-point lists; 0-4 [Page:*] pages '
+                'and box pages at different depths sharing JavaScript= values (identical, overlapping, repeating a [Game] file, none)/#LINK/image/audio macros, [Paths] at different depths, AddressAnchor/CodeFiles formats, LinkOperands, -1 -a -C -D/-H -l/-u -o -O -j -T, '
                 '-w subsets in one or two runs) rendered and run through real skool2html.main; each site is one trace of '
                 'WriteFile/CopyResource events; distinct_nontrivial = number of distinct relative links judged')
     rep.assumptions = ['html.parser tokenisation and URL splitting are trusted projections',
